@@ -25,6 +25,7 @@ pub const DEF: PropDef = PropDef {
 
 pub const SUBS: &[SubDef] = &[
     SubDef { prop: "C17", name: "sigalg_debug", oracle: sigalg_debug },
+    SubDef { prop: "C17", name: "composite_debug", oracle: composite_debug },
     SubDef { prop: "C17", name: "names", oracle: names },
     SubDef { prop: "C17", name: "conversions", oracle: conversions },
 ];
@@ -98,6 +99,14 @@ fn run(ctx: &Ctx) {
     ctx.run_enum("names", names, true, "every integer of every registry type's domain (14 x 256 + 4 x 65536 values), Display and Debug", cases.into_iter());
     let cases = (0..=65535u32).map(|v| vec![(v >> 8) as u8, v as u8]);
     ctx.run_enum("sigalg_debug", sigalg_debug, true, "all 65536 code points inside a signature_algorithms extension, Debug text (the place where the crate prints scheme / hash / signature names together)", cases);
+    let comps = composites();
+    let mut cases: Vec<Vec<u8>> = Vec::new();
+    for (ci, c) in comps.iter().enumerate() {
+        for v in 0..(1u32 << c.reg.bits) {
+            cases.push(vec![ci as u8, (v >> 8) as u8, v as u8]);
+        }
+    }
+    ctx.run_enum("composite_debug", composite_debug, true, &format!("{} (structure, registry-typed field) pairs x every value of the field's domain: the text the structure prints for that field", comps.len()), cases.into_iter());
     ctx.run_fn("variant_tags", true, "every TlsExtension variant converted to its TlsExtensionType", |obs| {
         use vmodel::model::*;
         let seed = [7u8; 64];
@@ -150,6 +159,100 @@ fn sigalg_debug(t: &mut Tape, obs: &mut Obs) -> R {
     }
     if iana::HASH_ALG.name_of(hi).is_none() {
         ensure!(!iana::HASH_ALG.consts.iter().any(|c| hpart.starts_with(c.0)), sig, "Debug of [{:#06x}] prints {:?} for unregistered hash algorithm {}", v, hpart, hi);
+    }
+    Ok(())
+}
+
+/// a structure that prints a registry-typed field by name: (label, registry, text of the structure holding value v in that field).
+/// The other fields hold values whose text cannot be mistaken for a name of the registry under test.
+struct Composite {
+    label: &'static str,
+    reg: &'static Registry,
+    /// the structure prints this field with the field type's Display (true) or Debug (false): read off tls_debug.rs / the derives.
+    /// The name is expected exactly when that formatting of the field type prints names (Registry::display_names / debug_names).
+    via_display: bool,
+    text: fn(u32) -> String,
+}
+
+fn composites() -> Vec<Composite> {
+    fn ecp(ct: u8, g: u16) -> ECParameters<'static> {
+        ECParameters { curve_type: ECCurveType(ct), params_content: ECParametersContent::NamedGroup(NamedGroup(g)) }
+    }
+    fn sha(h: u8, s: u8) -> SignatureAndHashAlgorithm {
+        SignatureAndHashAlgorithm { hash: HashAlgorithm(h), sign: SignAlgorithm(s) }
+    }
+    static RND: [u8; 32] = [0x11; 32];
+    vec![
+        Composite { label: "Debug of ECParameters: curve_type", reg: &iana::EC_CURVE_TYPE, via_display: true, text: |v| format!("{:?}", ecp(v as u8, 23)) },
+        Composite { label: "Debug of ServerECDHParams: curve_type", reg: &iana::EC_CURVE_TYPE, via_display: true, text: |v| format!("{:?}", ServerECDHParams { curve_params: ecp(v as u8, 23), public: ECPoint { point: &[4, 1] } }) },
+        Composite { label: "Debug of ECParameters: named group", reg: &iana::NAMED_GROUP, via_display: true, text: |v| format!("{:?}", ecp(1, v as u16)) },
+        Composite { label: "Debug of SignatureAndHashAlgorithm: hash", reg: &iana::HASH_ALG, via_display: true, text: |v| format!("{:?}", sha(v as u8, 0xee)) },
+        Composite { label: "Debug of SignatureAndHashAlgorithm: signature", reg: &iana::SIGN_ALG, via_display: true, text: |v| format!("{:?}", sha(0xee, v as u8)) },
+        Composite { label: "Display of SignatureAndHashAlgorithm: hash", reg: &iana::HASH_ALG, via_display: true, text: |v| format!("{}", sha(v as u8, 0xee)) },
+        Composite { label: "Display of SignatureAndHashAlgorithm: signature", reg: &iana::SIGN_ALG, via_display: true, text: |v| format!("{}", sha(0xee, v as u8)) },
+        Composite { label: "Debug of DigitallySigned: hash", reg: &iana::HASH_ALG, via_display: true, text: |v| format!("{:?}", DigitallySigned { alg: Some(sha(v as u8, 0xee)), data: &[1, 2] }) },
+        Composite { label: "Debug of DigitallySigned: signature", reg: &iana::SIGN_ALG, via_display: true, text: |v| format!("{:?}", DigitallySigned { alg: Some(sha(0xee, v as u8)), data: &[1, 2] }) },
+        Composite { label: "Debug of TlsRecordHeader: type", reg: &iana::RECORD_TYPE, via_display: false, text: |v| format!("{:?}", TlsRecordHeader { record_type: TlsRecordType(v as u8), version: TlsVersion(0x9999), len: 1 }) },
+        Composite { label: "Debug of TlsRecordHeader: version", reg: &iana::VERSION, via_display: false, text: |v| format!("{:?}", TlsRecordHeader { record_type: TlsRecordType(0x99), version: TlsVersion(v as u16), len: 1 }) },
+        Composite { label: "Debug of TlsPlaintext: type", reg: &iana::RECORD_TYPE, via_display: false, text: |v| format!("{:?}", TlsPlaintext { hdr: TlsRecordHeader { record_type: TlsRecordType(v as u8), version: TlsVersion(0x9999), len: 0 }, msg: vec![] }) },
+        Composite { label: "Debug of TlsMessageAlert: severity", reg: &iana::ALERT_SEVERITY, via_display: false, text: |v| format!("{:?}", TlsMessageAlert { severity: TlsAlertSeverity(v as u8), code: TlsAlertDescription(0xee) }) },
+        Composite { label: "Debug of TlsMessageAlert: description", reg: &iana::ALERT_DESCRIPTION, via_display: false, text: |v| format!("{:?}", TlsMessageAlert { severity: TlsAlertSeverity(0xee), code: TlsAlertDescription(v as u8) }) },
+        Composite { label: "Debug of TlsMessage::Alert: description", reg: &iana::ALERT_DESCRIPTION, via_display: false, text: |v| format!("{:?}", TlsMessage::Alert(TlsMessageAlert { severity: TlsAlertSeverity(0xee), code: TlsAlertDescription(v as u8) })) },
+        Composite { label: "Debug of supported_groups extension: group", reg: &iana::NAMED_GROUP, via_display: true, text: |v| format!("{:?}", TlsExtension::EllipticCurves(vec![NamedGroup(0x9999), NamedGroup(v as u16)])) },
+        Composite { label: "Debug of supported_versions extension: version", reg: &iana::VERSION, via_display: true, text: |v| format!("{:?}", TlsExtension::SupportedVersions(vec![TlsVersion(0x9999), TlsVersion(v as u16)])) },
+        Composite { label: "Debug of server_name extension: name type", reg: &iana::SNI_TYPE, via_display: true, text: |v| format!("{:?}", TlsExtension::SNI(vec![(SNIType(v as u8), &b"a.example"[..])])) },
+        Composite { label: "Debug of status_request extension: status type", reg: &iana::CERT_STATUS_TYPE, via_display: false, text: |v| format!("{:?}", TlsExtension::StatusRequest(Some((CertificateStatusType(v as u8), &[7u8, 7][..])))) },
+        Composite { label: "Debug of encrypted_server_name extension: group", reg: &iana::NAMED_GROUP, via_display: false, text: |v| format!("{:?}", TlsExtension::EncryptedServerName { ciphersuite: TlsCipherSuiteID(0x9999), group: NamedGroup(v as u16), key_share: &[], record_digest: &[], encrypted_sni: &[] }) },
+        Composite { label: "Debug of TlsClientHelloContents: version", reg: &iana::VERSION, via_display: false, text: |v| format!("{:?}", TlsClientHelloContents { version: TlsVersion(v as u16), random: &RND, session_id: None, ciphers: vec![], comp: vec![], ext: None }) },
+        Composite { label: "Debug of TlsClientHelloContents: compression", reg: &iana::COMPRESSION, via_display: false, text: |v| format!("{:?}", TlsClientHelloContents { version: TlsVersion(0x9999), random: &RND, session_id: None, ciphers: vec![], comp: vec![TlsCompressionID(0x99), TlsCompressionID(v as u8)], ext: None }) },
+        Composite { label: "Debug of TlsServerHelloContents: version", reg: &iana::VERSION, via_display: false, text: |v| format!("{:?}", TlsServerHelloContents { version: TlsVersion(v as u16), random: &RND, session_id: None, cipher: TlsCipherSuiteID(0x9999), compression: TlsCompressionID(0x99), ext: None }) },
+        Composite { label: "Debug of TlsServerHelloContents: compression", reg: &iana::COMPRESSION, via_display: false, text: |v| format!("{:?}", TlsServerHelloContents { version: TlsVersion(0x9999), random: &RND, session_id: None, cipher: TlsCipherSuiteID(0x9999), compression: TlsCompressionID(v as u8), ext: None }) },
+        Composite { label: "Debug of TlsServerHelloV13Draft18Contents: version", reg: &iana::VERSION, via_display: false, text: |v| format!("{:?}", TlsServerHelloV13Draft18Contents { version: TlsVersion(v as u16), random: &RND, cipher: TlsCipherSuiteID(0x9999), ext: None }) },
+        Composite { label: "Debug of TlsHelloRetryRequestContents: version", reg: &iana::VERSION, via_display: false, text: |v| format!("{:?}", TlsHelloRetryRequestContents { version: TlsVersion(v as u16), cipher: TlsCipherSuiteID(0x9999), ext: None }) },
+        Composite { label: "Debug of TlsMessageHeartbeat: type", reg: &iana::HEARTBEAT_TYPE, via_display: false, text: |v| format!("{:?}", TlsMessageHeartbeat { heartbeat_type: TlsHeartbeatMessageType(v as u8), payload_len: 0, payload: &[] }) },
+        Composite { label: "Debug of DTLSRecordHeader: type", reg: &iana::RECORD_TYPE, via_display: false, text: |v| format!("{:?}", DTLSRecordHeader { content_type: TlsRecordType(v as u8), version: TlsVersion(0x9999), epoch: 0, sequence_number: 0, length: 0 }) },
+        Composite { label: "Debug of DTLSRecordHeader: version", reg: &iana::VERSION, via_display: false, text: |v| format!("{:?}", DTLSRecordHeader { content_type: TlsRecordType(0x99), version: TlsVersion(v as u16), epoch: 0, sequence_number: 0, length: 0 }) },
+        Composite { label: "Debug of DTLSMessageHandshake: type", reg: &iana::HANDSHAKE_TYPE, via_display: false, text: |v| format!("{:?}", DTLSMessageHandshake { msg_type: TlsHandshakeType(v as u8), length: 0, message_seq: 0, fragment_offset: 0, fragment_length: 0, body: DTLSMessageHandshakeBody::ServerDone(&[]) }) },
+        Composite { label: "Debug of SignedCertificateTimestamp: version", reg: &iana::CT_VERSION, via_display: false, text: |v| format!("{:?}", SignedCertificateTimestamp { version: CtVersion(v as u8), id: CtLogID { key_id: &RND }, timestamp: 0x9999, extensions: CtExtensions(&[]), signature: DigitallySigned { alg: None, data: &[] } }) },
+    ]
+}
+
+/// parameter tape: [composite index, value_hi, value_lo]: a structure that prints a registry-typed field shows that field by the
+/// constant's name when one is defined, and otherwise by text containing the value (decimal or hexadecimal)
+fn composite_debug(t: &mut Tape, obs: &mut Obs) -> R {
+    let ci = t.u8() as usize;
+    let v = t.u16() as u32;
+    let comps = composites();
+    let c = match comps.get(ci) {
+        Some(c) => c,
+        None => return Ok(()),
+    };
+    if c.reg.bits == 8 && v > 255 {
+        return Ok(());
+    }
+    let text = guard(c.label, || (c.text)(v))?;
+    let sig = format!("C17:composite:{}:value={:#x}", c.label, v);
+    let has_token = |name: &str| text.split(|ch: char| !(ch.is_ascii_alphanumeric() || ch == '_')).any(|w| w == name);
+    let prints_names = if c.via_display { c.reg.display_names } else { c.reg.debug_names };
+    match c.reg.name_of(v).filter(|_| prints_names) {
+        Some(name) => {
+            obs.nontrivial((ci as u64) << 32 | v as u64);
+            obs.class("named");
+            ensure!(has_token(name), sig, "{} with value {:#x} is {:?}: the constant defined for this value is {} and does not appear", c.label, v, trunc(&text), name);
+            if obs.wants_sample() {
+                obs.sample(json!({"structure": c.label, "value": v, "text": trunc(&text)}));
+            }
+        }
+        None => {
+            obs.class("unnamed");
+            let shown = has_token(&v.to_string()) || has_token(&format!("0x{:x}", v)) || has_token(&format!("{:x}", v)) || has_token(&format!("{:04x}", v)) || has_token(&format!("{:02x}", v)) || has_token(&format!("0x{:04x}", v)) || has_token(&format!("0x{:02x}", v));
+            if !shown {
+                // a name the tables do not list is tolerated when it is an identifier of no other registered value (as in `names`)
+                let other = c.reg.consts.iter().any(|k| has_token(k.0));
+                ensure!(!other, sig, "{} with unregistered value {:#x} is {:?}: it shows neither the value nor a new name, but the name of another constant", c.label, v, trunc(&text));
+                obs.class("unnamed:value-not-shown");
+            }
+        }
     }
     Ok(())
 }
